@@ -37,11 +37,11 @@ CLAIMED = {
          "(not separately model-checked here).",
          "Coq proof (inductive invariant over operation histories) + differential execution of model and real BufferPool"),
  "C02": ("proof", "Theorems about the send-queue machine (DriverSend reduced to its effect on the queue) for every sequence of send() results: driver_send_fifo, "
-         "future_value_means_all_accepted, partial_write_keeps_front, resolves_only_front, arm_only_that_descriptor, sends_use_nosignal. Correspondence: sequential "
+         "future_value_means_all_accepted, partial_write_keeps_front, resolves_only_front, arm_only_that_descriptor, sends_use_nosignal; driver_send_refines_queue_machine ties the machine to the model of DriverSend (one send() result has on futures, queue and front-buffer size exactly the effect sq_step computes). Correspondence: sequential "
          "histories on async TCP sockets under the scripted kernel (every partial-write pattern, failures, refills from handlers, destruction with sends pending); "
          "compared: send() calls with per-buffer position-coded content checked by the virtual kernel, future states, pool occupancy, POLLOUT bits.", "5 C02",
          TB + "Sequential histories only in this check: producer/driver interleavings are covered by C04/C05's model and harness. Liveness ('does not stay pending') "
-         "needs kernel/driver fairness, stated not proved. The link between DriverModel.driver_send and the pure queue machine is by construction (same case split), not a lemma.",
+         "needs kernel/driver fairness, stated not proved. The refinement lemma covers buffers from user pools (what the asynchronous API is handed) whose future is pending; sizes of the other queue elements are untouched by pool invariants (C10), not restated there.",
          "Coq proof (queue machine, all send-result sequences) + trace correspondence under a scripted virtual OS"),
  "C03": ("proof", "Theorems one_socket_per_step, socket_task_first_ready, socket_task_priority (data before disconnect), unregister_removes_both, "
          "receive_delivers_what_recv_returned, disconnect_unregisters_first for every readiness vector; correspondence on async TCP sockets and acceptors with scripted "
